@@ -57,6 +57,83 @@ f"#;
         }
         if bad { std::process::exit(6); }
     }
+    if which == "reload" {
+                let run = |vm: &RootedThread| vm.run_expr::<i32>("user", "import! m").map(|x| x.0).map_err(|e| e.to_string().lines().next().unwrap_or("").to_string());
+        // route A: ThreadExt::load_script (add_module + invalidate)
+        let vm = new_vm();
+        vm.load_script("m", "1").unwrap();
+        let a1 = run(&vm);
+        vm.load_script("m", "2").unwrap();
+        let a2 = run(&vm);
+        println!("ThreadExt::load_script:      first {:?} after reload {:?}", a1, a2);
+        // route B: the std.io.load_script primitive (Executable::load_script on source text)
+        let vm = new_vm();
+        vm.run_io(true);
+        let src = r#"
+let io @ { ? } = import! std.io
+let { wrap } = import! std.applicative
+let { flat_map } = import! std.monad
+do _ = io.load_script "m" "1"
+do r1 = io.run_expr "import! m"
+do _ = io.load_script "m" "2"
+do r2 = io.run_expr "import! m"
+wrap (r1.value, r2.value)
+"#;
+        let r = vm.run_expr::<gluon::vm::api::IO<(String, String)>>("t", src).map(|x| x.0).map_err(|e| e.to_string());
+        println!("std.io.load_script:          {:?}", r);
+        let b2: Result<i32, String> = match r { Ok(gluon::vm::api::IO::Value((_, ref b))) if b == "2" => Ok(2), _ => Err("stale".into()) };
+        if b2 != Ok(2) { std::process::exit(7); }
+    }
+    if which == "gcmutex" {
+        use std::sync::Arc;
+        let m = Arc::new(gluon::vm::gc::mutex::Mutex::new(0i64));
+        let (tx, rx) = std::sync::mpsc::channel();
+        for _ in 0..2 {
+            let m = m.clone();
+            let tx = tx.clone();
+            std::thread::spawn(move || {
+                for _ in 0..2_000_000 {
+                    let mut g = m.lock().unwrap();
+                    *g += 1;
+                }
+                tx.send(()).unwrap();
+            });
+        }
+        let mut done = 0;
+        while done < 2 {
+            match rx.recv_timeout(std::time::Duration::from_secs(20)) {
+                Ok(()) => done += 1,
+                Err(_) => { println!("gc::mutex::Mutex: DEADLOCK (two threads doing lock/unlock made no progress for 20s)"); std::process::exit(8); }
+            }
+        }
+        println!("gc::mutex::Mutex: both threads finished, total = {}", *m.lock().unwrap());
+    }
+    if which == "pushcross" {
+        // two sibling threads, each pushes a value rooted in the other one onto its own stack
+        let t1 = vm.new_thread().unwrap();
+        let t2 = vm.new_thread().unwrap();
+        let (v1, _) = t1.run_expr::<OpaqueValue<RootedThread, Hole>>("a", "{ x = 1, y = \"a\" }").unwrap();
+        let (v2, _) = t2.run_expr::<OpaqueValue<RootedThread, Hole>>("b", "{ x = 2, y = \"b\" }").unwrap();
+        let (tx, rx) = std::sync::mpsc::channel();
+        for (t, v) in vec![(t1.clone(), v2.clone()), (t2.clone(), v1.clone())] {
+            let tx = tx.clone();
+            std::thread::spawn(move || {
+                for _ in 0..300_000 {
+                    t.push(v.clone()).unwrap();
+                    t.pop();
+                }
+                tx.send(()).unwrap();
+            });
+        }
+        let mut done = 0;
+        while done < 2 {
+            match rx.recv_timeout(std::time::Duration::from_secs(30)) {
+                Ok(()) => done += 1,
+                Err(_) => { println!("pushcross: DEADLOCK (no progress for 30s)"); std::process::exit(9); }
+            }
+        }
+        println!("pushcross: both threads finished");
+    }
     if which == "lazy" {
         let src = r#"let { lazy } = import! std.lazy in lazy (\_ -> error "fail")"#;
         let (l, _) = vm.run_expr::<OpaqueValue<RootedThread, Hole>>("t", src).unwrap(); let l: L = unsafe { std::mem::transmute(l) };
